@@ -9,11 +9,19 @@ SRC = 'tarpc/src/server/limits/channels_per_key.rs'
 IMPL = r'impl<S, K, F> MaxChannelsPerKey<S, K, F> where S: Stream, K: fmt::Display \+ Eq \+ Hash \+ Clone \+ Unpin, F: Fn\(&S::Item\) -> K,'
 STREAM = r'impl<S, K, F> Stream for MaxChannelsPerKey<S, K, F> where S: Stream, K: fmt::Display \+ Eq \+ Hash \+ Clone \+ Unpin, F: Fn\(&S::Item\) -> K,'
 
+TC_STREAM = r'impl<C, K> Stream for TrackedChannel<C, K> where C: Stream,'
+TC_SINK = r'impl<C, I, K> Sink<I> for TrackedChannel<C, K> where C: Sink<I>,'
+TC_CHANNEL = r'impl<C, K> Channel for TrackedChannel<C, K> where C: Channel,'
+
 RULES = [
     Rule('R2:as-mut', r'self\s*\.as_mut\(\)\s*\.', 'self.', flags=re.M | re.S, why='A-pin'),
     Rule('R2:project-let', r'let self_ = self\.project\(\);', 'let self_ = self;', why='A-pin: projection is field access'),
     Rule('R2:project-ref', r'let dropped_keys = self_\.dropped_keys_tx;', 'let dropped_keys = &self_.dropped_keys_tx;', why='projection yields a reference to the field'),
     Rule('R2:project-deref', r'\*self_\.channels_per_key', 'self_.channels_per_key', why='projection yields a reference to the field'),
+    Rule('R3:inner_pin_mut', r'self\.inner_pin_mut\(\)', 'self.inner', why='accessor = projection of field inner'),
+    Rule('R5:tc-item', r'Option<Self::Item>', 'Option<ChanItem>', where='sig', why='item type of the wrapped channel is opaque'),
+    Rule('R5:tc-error', r'Self::Error', 'ChanErr', where='sig', why='error type of the wrapped channel is opaque'),
+    Rule('R5:tc-sink-item', r'item: I\b', 'item: ChanSinkItem', where='sig', why='sink item type of the wrapped channel is opaque'),
     Rule('R3:listener_pin_mut', r'self\.listener_pin_mut\(\)', 'self.listener', why='accessor = projection'),
     Rule('R7:poll_next_unpin', r'\.poll_next_unpin\(cx\)', '.poll_next(cx)', why='StreamExt::poll_next_unpin'),
     Rule('R7:compact', r'self_\.key_counts\.compact\(0\.1\);', 'compact_map(&mut self_.key_counts);', why='frame-only model of util::Compact'),
@@ -74,7 +82,8 @@ def unit():
     STRUCT_RULES = [Rule('R5:struct-generics', r'pub struct MaxChannelsPerKey<S, u64, F>\nwhere\n\s*u64: Eq \+ Hash,\n\{', 'pub struct MaxChannelsPerKey {', 1, flags=re.M, why='type parameters instantiated by prelude models'),
                     Rule('R5:keymaker', r'keymaker: F,', 'keymaker: Keymaker,', 1, why='key function model')]
     return Unit('channels', prelude=['base.rs', 'arc_world.rs'], rules=RULES, fx_type='World', header='use std::collections::hash_map::Entry;\n',
-                accessor_guards=[(SRC, IMPL, 'listener_pin_mut', r'\{\s*self\.as_mut\(\)\.project\(\)\.listener\s*\}')],
+                accessor_guards=[(SRC, IMPL, 'listener_pin_mut', r'\{\s*self\.as_mut\(\)\.project\(\)\.listener\s*\}'),
+                                 (SRC, r'impl<C, K> TrackedChannel<C, K>', 'inner_pin_mut', r'\{\s*self\.as_mut\(\)\.project\(\)\.inner\s*\}')],
                 fx_fns=[r'\.increment_channels_for_key\(', r'\.handle_new_channel\(', r'\.poll_listener\(', r'\.poll_closed_channels\('],
                 fx_prims=[r'TrackerArc::new\(', r'\.strong_count\(', r'\.upgrade\('],
                 parts=[
@@ -87,8 +96,42 @@ def unit():
                requires='old(self).key is Some, // @C16',
                ensures='final(self).key is None, // @C13'),
         ]),
+        Impl('impl TrackedChannel', qual='TrackedChannel', parts=[
+            # C13 ("nor over-applied") / C14: a tracked channel *is* the channel it wraps -- every operation is that one operation of the
+            # inner channel, answered as the inner channel answered -- and it holds its tracker for as long as it lives
+            F(TC_STREAM, 'poll_next', tags='C13',
+              ensures='r == old(self).inner.next_answer() && final(self).inner == old(self).inner.after_next() && final(self).tracker == old(self).tracker, // @C13,C14'),
+            F(TC_SINK, 'poll_ready', tags='C13',
+              ensures='r == old(self).inner.ready_answer() && final(self).inner == old(self).inner.after_ready() && final(self).tracker == old(self).tracker, // @C13,C14'),
+            F(TC_SINK, 'start_send', tags='C13',
+              ensures='r == old(self).inner.send_answer(item) && final(self).inner == old(self).inner.after_send(item) && final(self).tracker == old(self).tracker, // @C13,C14'),
+            F(TC_SINK, 'poll_flush', tags='C13',
+              ensures='r == old(self).inner.flush_answer() && final(self).inner == old(self).inner.after_flush() && final(self).tracker == old(self).tracker, // @C13,C14'),
+            F(TC_SINK, 'poll_close', tags='C13',
+              ensures='r == old(self).inner.close_answer() && final(self).inner == old(self).inner.after_close() && final(self).tracker == old(self).tracker, // @C13,C14'),
+            F(TC_CHANNEL, 'in_flight_requests', tags='C13', ret='n',
+              ensures='n == self.inner.in_flight(), // @C13,C12'),
+        ]),
         Impl('impl MaxChannelsPerKey', qual='MaxChannelsPerKey', parts=[
             IMPL_VOCAB,
+            F(r'impl<S, K, F> MaxChannelsPerKey<S, K, F> where K: Eq \+ Hash, S: Stream, F: Fn\(&S::Item\) -> K,', 'new', fx=True, tags='C13',
+              rules=[
+                  Rule('R5:new-listener-param', r'listener: S,', 'listener: RawListener,', 1, where='sig', why='listener type parameter erased (prelude model)'),
+                  Rule('R5:new-keymaker-param', r'keymaker: F\)', 'keymaker: Keymaker)', 1, where='sig', why='key function model'),
+                  Rule('R5:new-mpsc', r'mpsc::unbounded_channel\(\)', 'dropped_keys_channel()', 1, where='body', why='prelude model of the close-notification queue'),
+                  Rule('R5:new-fuse', r'listener\.fuse\(\)', 'fuse_listener(listener)', 1, where='body', why='prelude model of the fused listener'),
+                  Rule('R7:default-map', r'FnvHashMap::default\(\)', 'HashMap::new()', 1, where='body', why='`Default` of (Fnv)HashMap is the empty map (A-hashmap)'),
+              ],
+              pre='broadcast use vstd::std_specs::hash::group_hash_axioms;',
+              requires='''
+                channels_per_key >= 1, // @core (with a limit of 0 every channel is shed; outside the invariant)
+                old(fx).wf() && forall|t: int| #[trigger] old(fx).live.contains_key(t) ==> old(fx).live[t] == 0, // @core (no tracker of this filter has a live channel yet)
+              ''',
+              ensures='''
+                // the induction base of the C13 invariant: a new filter satisfies it and counts no channel for any key
+                r.inv(final(fx)) && final(fx).same(old(fx)), // @core:C13
+                r.channels_per_key == channels_per_key && forall|k: u64| r.live_for_key(final(fx), k) == 0, // @C13
+              '''),
             F(IMPL, 'increment_channels_for_key', fx=True, tags='C13', unwrap_or_else=['Option'],
               requires='old(self).inv(old(fx)), // @core',
               ensures='''
